@@ -134,8 +134,28 @@ private def mk (c d : String) : Cmd :=
     commandLower := bs c, descriptionLower := bs d, keywordsLower := [], tagsLower := [] }
 /-- three commands; the query is "git archive"; the context boosts the word "git" by 2 -/
 private def exDb : Db := [mk "git archive" "git archive", mk "git commit" "record changes", mk "tar archive" "compress files"]
+/-- fixed parameter values for the example (those of the source when it was written): the example is a witness over the
+    model and must not depend on the regenerated constants, so that re-tuning `defaultParams()` leaves it alone -/
+private def exP : Params ℚ :=
+  { k1 := ofQ ⟨6, 5⟩, bCmd := ofQ ⟨3, 4⟩, bDesc := ofQ ⟨3, 4⟩, bKeys := ofQ ⟨7, 10⟩, bTags := ofQ ⟨7, 10⟩,
+    wCmd := ofQ ⟨7, 2⟩, wDesc := ofQ ⟨1, 1⟩, wKeys := ofQ ⟨2, 1⟩, wTags := ofQ ⟨6, 5⟩, minIDF := ofQ ⟨0, 1⟩ }
+private theorem exP_sane : ParamsSane exP where
+  k1 := ofQ_nonneg _ (by decide) (by decide)
+  wCmd := ofQ_pos _ (by decide) (by decide)
+  wDesc := ofQ_pos _ (by decide) (by decide)
+  wKeys := ofQ_pos _ (by decide) (by decide)
+  wTags := ofQ_pos _ (by decide) (by decide)
+  bCmd0 := ofQ_nonneg _ (by decide) (by decide)
+  bDesc0 := ofQ_nonneg _ (by decide) (by decide)
+  bKeys0 := ofQ_nonneg _ (by decide) (by decide)
+  bTags0 := ofQ_nonneg _ (by decide) (by decide)
+  bCmd1 := ofQ_le_one _ (by decide) (by decide)
+  bDesc1 := ofQ_le_one _ (by decide) (by decide)
+  bKeys1 := ofQ_le_one _ (by decide) (by decide)
+  bTags1 := ofQ_le_one _ (by decide) (by decide)
+  minIDF := ofQ_nonneg _ (by decide) (by decide)
 private def exT : Tuning ℚ where
-  params := genParams
+  params := exP
   idf := fun n df => (((n - df : Nat) : ℚ) + 1) / ((df : ℚ) + 1)
   host := bs "linux"
   ri := {}
@@ -166,7 +186,7 @@ private theorem one_nn : Nonneg (1 : ℚ) := by decide +kernel
 example : ParamsSane exT.params ∧ (∀ nq d, Nonneg ((exT.nlp nq).intentBoost d)) ∧ (∀ nq d, Nonneg ((exT.nlp nq).cascade d)) ∧
     (∀ p ∈ exB, ge p.2 (one : ℚ)) ∧ exDb.length ≤ effLimit exO ∧
     (∀ w ∈ exB.map (·.1), w ∈ queryTerms exT exDb exQ exO → ∀ c, exDb[2]? = some c → containsTerm c w = false) := by
-  refine ⟨genParams_sane, ?_, ?_, ?_, by decide, ?_⟩
+  refine ⟨exP_sane, ?_, ?_, ?_, by decide, ?_⟩
   · intro _ _; exact one_nn
   · intro _ _; exact one_nn
   · decide +kernel
@@ -179,7 +199,7 @@ example : ParamsSane exT.params ∧ (∀ nq d, Nonneg ((exT.nlp nq).intentBoost 
     decide +kernel
 
 example : ge ((308 : ℚ)/141) (154/141) :=
-  monotone exT exDb exQ exO genParams_sane (fun _ _ => one_nn) (fun _ _ => one_nn) exB (by decide +kernel)
+  monotone exT exDb exQ exO exP_sane (fun _ _ => one_nn) (fun _ _ => one_nn) exB (by decide +kernel)
     example_with example_without (d := 1) (by decide +kernel) (by decide +kernel)
 
 end example_engine
